@@ -11,7 +11,9 @@ CONSTANTS
   FlagHeldThroughDbWrite = TRUE
   RootHashBeforeCommit = TRUE
   PrevEpochChecked = TRUE
-INIT Init
-NEXT Next
+  ExportSched = FALSE
+VIEW View
+INIT MCInit
+NEXT MCNext
 INVARIANTS AtomicFailure NoTxnLeftOpen ReturnedPairsStayPublished
 CHECK_DEADLOCK FALSE
